@@ -101,7 +101,18 @@ J gen_hostile_srv(uint64_t seed, const J &ov)
 		m.set("lazy", r.chance(0.5));
 		models.push(m); cfg.set("models", models);
 		bool rawl = r.chance(0.3);
-		if (rawl) { J op = J::obj(); op.set("ref", "abs"); op.set("t", (long long)((3 + r.uniform() * 2) * 1e6)); op.set("op", "mc"); op.set("who", "h0"); op.set("act", "rawlogin"); op.set("mode", "good"); ops.push(op); }
+		if (rawl) {
+			double tl = 3 + r.uniform() * 2;
+			J op = J::obj(); op.set("ref", "abs"); op.set("t", (long long)(tl * 1e6)); op.set("op", "mc"); op.set("who", "h0"); op.set("act", "rawlogin"); op.set("mode", "good"); ops.push(op);
+			// runts right behind it (and behind later raw frames of the insider): from the insider's own address and from a third party
+			int nr = (int)r.range(1, 6);
+			for (int i = 0; i < nr; i++) {
+				J o2 = J::obj(); o2.set("ref", "abs"); o2.set("t", (long long)((tl + (i == 0 ? 0.0005 + r.uniform() * 0.01 : r.uniform() * (H + 5))) * 1e6)); o2.set("op", "mc"); o2.set("who", "h0"); o2.set("act", "rawrunt");
+				o2.set("key", (long long)(r.next() >> 1));
+				if (r.chance(0.6)) o2.set("spoof_ip", "10.9.2." + std::to_string(r.range(1, 3)));
+				ops.push(o2);
+			}
+		}
 		int k = (int)r.range(20, 300);
 		for (int i = 0; i < k; i++) {
 			J op = J::obj(); op.set("ref", "abs"); op.set("t", (long long)((4 + r.uniform() * (H + 10)) * 1e6)); op.set("op", "mc"); op.set("who", "h0"); op.set("act", "hostile"); op.set("key", (long long)(r.next() >> 1));
